@@ -430,7 +430,19 @@ def main(tier):
                             "user/public(/so); each case in its own process snapshot; a case counts as a trace when the call failed and the full before/after "
                             "observation (all sessions' objects and attributes, handle validity, raw token directory) was compared; states = compared "
                             "observations + start states built"}
-    rep.assumptions = ["file store; breakage menu and valid-call list as in the check source", "a case whose call succeeds is not a failing call and is only counted",
+    if tier != "quick":
+        # the same case list on the SQLite store (in-place restoring snapshots; the database is compared by logical content)
+        rdb = run(tier, "db")
+        for v in rdb["confirmed"]:
+            v = dict(v)
+            v["signature"] = v["signature"].replace("C09|", "C09|db|", 1)
+            rep.add_violation(v)
+        rep.harness_errors += rdb["harness"][:5]
+        cd = rdb["counters"]
+        rep.coverage["sqlite_store"] = {"cases_total": cd.get("cases", 0), "cases_failed_and_compared": cd.get("case_failed", 0)}
+        rep.coverage["states"] += cd.get("case_failed", 0)
+        rep.coverage["transitions"] += cd.get("cases", 0)
+    rep.assumptions = ["file store (thorough: also the SQLite store); breakage menu and valid-call list as in the check source", "a case whose call succeeds is not a failing call and is only counted",
                        "fs-fault clause: one injected failure per call (every file-system syscall of the call x its realistic errnos), file store"]
     # calls that fail because a file-system operation of the store failed (checks/fsfault.py)
     import fsfault
@@ -451,7 +463,7 @@ def replay(rec):
         core._worker_init(check, rec["variant"], rec["store"], template, root)
         rr = _one_case((rec["start"], rec["case_index"]))
         core._W["ctx"].stop_shell()
-        sigs = [v["signature"] for v in rr["viol"]]
+        sigs = [v["signature"].replace("C09|", "C09|db|", 1) if rec["store"] == "db" else v["signature"] for v in rr["viol"]]
         print("request:", rec["history"][0][:300])
         print("recorded:", rec["signature"], "\nobserved:", sigs)
         if rec["signature"] in sigs:
